@@ -24,7 +24,9 @@ RULE = ("stream cases = random selection under the subscription field (depth<=2:
         "resolvers) x event list of length 0..6 (per event: which paths raise ResolverError, which objects are null, list lengths; "
         "the root field itself may fail) x sync|async subscription resolver x iterator class|async generator source x "
         "per-event delays (loop spins before the gate opens) x inline|thread-offloaded blocking resolvers; refusal cases = every "
-        "documented refusal x runtimes; plus a bounded-exhaustive block over all failure patterns of 3 events x 2 failing fields. "
+        "documented refusal x runtimes, several root fields spelled through fragment spreads / inline fragments / nested fragments / "
+        "aliases / other fields, zero collected fields, operation-selection and variable-coercion failures; accepted single-field "
+        "spellings as mergeable duplicates, split selections, fragments, skipped siblings; plus a bounded-exhaustive block over all failure patterns of 3 events x 2 failing fields. "
         "distinct non-trivial = distinct canonical case with >=2 events or a refusal")
 ASSUMPTIONS = [
     "the consumer follows the sequential AsyncMap protocol: it awaits one __anext__ at a time (overlapping processing of two events on the shared executor is outside the statement)",
@@ -37,7 +39,8 @@ TRUSTED = [
 ]
 
 HARD_TIMEOUT = 10.0
-REFUSALS = ["multi-field", "no-sub-resolver", "unknown-field", "query-op", "mutation-op", "blocking-runtime", "threadpool-runtime"]
+REFUSALS = ["multi-field", "no-sub-resolver", "unknown-field", "query-op", "mutation-op", "blocking-runtime", "threadpool-runtime",
+            "multi-expanded", "zero-fields", "opsel-unknown", "opsel-ambiguous", "vars"]
 EXPECTED_EXC = {
     "multi-field": "ExecutionError",
     "no-sub-resolver": "RuntimeError",
@@ -46,6 +49,11 @@ EXPECTED_EXC = {
     "mutation-op": "RuntimeError",
     "blocking-runtime": "RuntimeError",
     "threadpool-runtime": "RuntimeError",
+    "multi-expanded": "ExecutionError",       # several root fields reached through fragments / inline fragments / aliases
+    "zero-fields": "ExecutionError",          # the only root field is skipped
+    "opsel-unknown": "InvalidOperationError",
+    "opsel-ambiguous": "InvalidOperationError",
+    "vars": "VariablesCoercionError",
 }
 LEAF = ("a", "ad", "bad", "badd")
 OBJ = ("o", "od")
@@ -109,18 +117,90 @@ def gen_event(rng, ident, sel, perr):
     return ev
 
 
+def wrap_root(rng, leaves, depth=2):
+    """spell a list of root leaves through fragment spreads / inline fragments (random grouping, order kept)"""
+    if depth == 0 or not leaves or rng.random() < 0.25:
+        return [{"leaf": x} for x in leaves]
+    out = []
+    i = 0
+    while i < len(leaves):
+        n = rng.randint(1, len(leaves) - i)
+        grp = leaves[i:i + n]
+        i += n
+        if rng.random() < 0.7:
+            out.append({"frag": wrap_root(rng, grp, depth - 1), "style": rng.choice(["spread", "inline", "inline-untyped"])})
+        else:
+            out += [{"leaf": x} for x in grp]
+    return out
+
+
+def gen_root(rng, kind, sel):
+    """kind 'single' -> spellings that collect exactly the field `root`; 'multi' -> several root fields; 'zero' -> none"""
+    if kind == "single":
+        base = rng.choice([["R"], ["R", "R"], ["R", "Os"], ["Os", "R", "R"]] + ([["Ra", "Rb"], ["Ra", "Rb", "R"]] if len(sel) >= 2 else []))
+    elif kind == "multi":
+        base = rng.choice([["R", "O"], ["R", "O2"], ["O2", "R"], ["R", "R", "O"], ["R", "O", "O2"], ["R", "Os", "O2"]])
+    else:
+        base = rng.choice([["Rs"], ["Os"], ["Rs", "Os"]])
+    return wrap_root(rng, base)
+
+
+def default_root(case):
+    r = case["refusal"]
+    if r == "multi-field":
+        return [{"leaf": "R"}, {"leaf": "O"}]
+    if r == "no-sub-resolver":
+        return [{"leaf": "N"}]
+    if r == "unknown-field":
+        return [{"leaf": "U"}]
+    return [{"leaf": "R"}]
+
+
+def root_of(case):
+    return case.get("root") or default_root(case)
+
+
+def collected_keys(root):
+    """response keys `collect_fields` finds at the root, in order (skipped leaves dropped, duplicates merged)"""
+    keys = []
+
+    def walk(nodes):
+        for n in nodes:
+            if "leaf" in n:
+                k = LEAF_KEY[n["leaf"]]
+                if k is not None and k not in keys:
+                    keys.append(k)
+            else:
+                walk(n["frag"])
+    walk(root)
+    return keys
+
+
+LEAF_KEY = {"R": "root", "Ra": "root", "Rb": "root", "O": "other", "O2": "other2", "Os": None, "Rs": None, "N": "root", "U": "root"}
+
+
 def gen_case(rng):
     counter = [0]
-    if rng.random() < 0.12:
-        return {"kind": "refusal", "refusal": rng.choice(REFUSALS), "async_sub": rng.random() < 0.5,
-                "source": rng.choice(["iter", "agen"]), "threads": False, "sel": gen_sel(rng, 1, counter),
+    if rng.random() < 0.16:
+        r = rng.choice(REFUSALS + ["multi-expanded"] * 3)
+        sel = gen_sel(rng, 1, counter)
+        case = {"kind": "refusal", "refusal": r, "async_sub": rng.random() < 0.5,
+                "source": rng.choice(["iter", "agen"]), "threads": False, "sel": sel,
                 "events": [gen_event(rng, 0, [], 0.0)], "delays": [0, 0]}
+        if r == "multi-expanded":
+            case["root"] = gen_root(rng, "multi", sel)
+        elif r == "zero-fields":
+            case["root"] = gen_root(rng, "zero", sel)
+        return case
     sel = gen_sel(rng, rng.randint(0, 2), counter)
     perr = rng.choice([0.0, 0.2, 0.5])
     n = rng.choice([0, 1, 2, 2, 3, 3, 4, 5, 6])
-    return {"kind": "stream", "refusal": None, "async_sub": rng.random() < 0.5, "source": rng.choice(["iter", "agen"]),
+    case = {"kind": "stream", "refusal": None, "async_sub": rng.random() < 0.5, "source": rng.choice(["iter", "agen"]),
             "threads": rng.random() < 0.06, "sel": sel, "events": [gen_event(rng, i, sel, perr) for i in range(n)],
             "delays": [rng.choice([0, 0, 1, 3]) for _ in range(n + 1)]}
+    if rng.random() < 0.35:
+        case["root"] = gen_root(rng, "single", sel)
+    return case
 
 
 def render_sel(sel):
@@ -133,22 +213,63 @@ def render_sel(sel):
     return " ".join(parts)
 
 
+def render_root(case):
+    """-> (root selection text, fragment definitions text)"""
+    sel = case["sel"]
+    arg = "$v" if case["refusal"] == "vars" else "5"
+    half = max(1, len(sel) // 2)
+    leaf_text = {
+        "R": "root: ev(n: %s) { %s }" % (arg, render_sel(sel)),
+        "Ra": "root: ev(n: %s) { %s }" % (arg, render_sel(sel[:half])),
+        "Rb": "root: ev(n: %s) { %s }" % (arg, render_sel(sel[half:]) or "zz: a"),
+        "Rs": "root: ev(n: %s) @skip(if: true) { %s }" % (arg, render_sel(sel)),
+        "O": "other: ev(n: 6) { zz: a }",
+        "O2": "other2: ev2 { zz: a }",
+        "Os": "skipped: ev2 @include(if: false) { zz: a }",
+        "N": "root: nosub { %s }" % render_sel(sel),
+        "U": "root: nothere { zz: a }",
+    }
+    frags = []
+
+    def walk(nodes):
+        parts = []
+        for n in nodes:
+            if "leaf" in n:
+                parts.append(leaf_text[n["leaf"]])
+            elif n["style"] == "spread":
+                name = "F%d" % len(frags)
+                frags.append(None)
+                frags[int(name[1:])] = "fragment %s on Subscription { %s }" % (name, walk(n["frag"]))
+                parts.append("...%s" % name)
+            elif n["style"] == "inline":
+                parts.append("... on Subscription { %s }" % walk(n["frag"]))
+            else:
+                parts.append("... { %s }" % walk(n["frag"]))
+        return " ".join(parts)
+    body = walk(root_of(case))
+    return body, " ".join(frags)
+
+
 def documents(case):
-    """(subscription document text, twin query text with identical columns)"""
-    body = "root: ev(n: 5) { %s }" % render_sel(case["sel"])
+    """(subscription document text, twin query text with identical columns, operation name, variables)"""
+    body, frags = render_root(case)
     r = case["refusal"]
-    if r == "multi-field":
-        body += " other: ev(n: 6) { zz: a }"
-    elif r == "no-sub-resolver":
-        body = "root: nosub { %s }" % render_sel(case["sel"])
-    elif r == "unknown-field":
-        body = "root: nothere { zz: a }"
     kw = "subscription"
     if r == "query-op":
         kw = "query       "
     elif r == "mutation-op":
         kw = "mutation    "
-    return "%s Q { %s }" % (kw, body), "%s Q { %s }" % ("query       ", body)
+    decl = "($v: Int!)" if r == "vars" else ""
+    tail = (" " + frags) if frags else ""
+    if r == "opsel-ambiguous":
+        tail += " subscription P { root: ev(n: 1) { zz: a } }"
+    return "%s Q%s { %s }%s" % (kw, decl, body, tail), "%s Q%s { %s }%s" % ("query       ", decl, body, tail)
+
+
+def request_extras(case):
+    """(operation_name, variables) of the subscribe call"""
+    r = case["refusal"]
+    return ("Missing" if r == "opsel-unknown" else None), ({} if r == "vars" else None)
 
 
 # ---------------------------------------------------------------------------------------------
@@ -271,6 +392,7 @@ def schemas(mode):
             return (sub_async if ctx.async_sub else sub_sync)(root, ctx, info, **args)
         S = ObjectType("Subscription", [
             Field("ev", Evt, args=[Argument("n", Int)], resolver=root_resolver, subscription_resolver=sub),
+            Field("ev2", Evt, resolver=root_resolver, subscription_resolver=sub),
             Field("nosub", Evt, resolver=root_resolver),
         ])
         return Evt, S
@@ -305,6 +427,7 @@ def run_real(case):
 
     case = copy.deepcopy(case)
     text, _ = documents(case)
+    opname, variables = request_extras(case)
     sub_schema, _ = schemas("async")
     doc = parse(text)
     loop = asyncio.new_event_loop()
@@ -326,7 +449,7 @@ def run_real(case):
 
         async def main():
             try:
-                aw = subscribe(sub_schema, doc, context_value=ctx, runtime=rt)
+                aw = subscribe(sub_schema, doc, context_value=ctx, runtime=rt, operation_name=opname, variables=variables)
                 stream = await asyncio.wait_for(aw, HARD_TIMEOUT) if asyncio.iscoroutine(aw) or asyncio.isfuture(aw) else aw
             except Exception as e:  # noqa  (classified by the caller)
                 out["refused"] = type(e).__name__
@@ -409,14 +532,14 @@ def oracle(case, real):
     if case["kind"] == "refusal":
         r = case["refusal"]
         if real["refused"] is None:
-            bad.append(("refusal-missing:%s" % r, "%s was accepted" % r))
+            bad.append(("refusal-missing:%s%s" % (r, spelling_class(case)), "%s was accepted" % r))
         elif real["refused"] != EXPECTED_EXC[r]:
             bad.append(("refusal-class:%s:%s" % (r, real["refused"]), "%s refused with %s, documented %s" % (r, real["refused"], EXPECTED_EXC[r])))
         if real["pulls"] != 0:
             bad.append(("refusal-consumed:%s" % r, "%s: %d events pulled from the source before the refusal" % (r, real["pulls"])))
         return bad
     if real["refused"] is not None:
-        return [("stream-refused:%s" % real["refused"], "a valid subscription was refused with %s" % real["refused"])]
+        return [("stream-refused:%s%s" % (real["refused"], spelling_class(case)), "a valid subscription was refused with %s" % real["refused"])]
     n = len(case["events"])
     got = real["results"]
     if not real["ended"]:
@@ -447,6 +570,14 @@ def oracle(case, real):
             bad.append(("kth-errors:%s" % ("missing" if len(g["errors"]) < len(w["errors"]) else "differs"),
                         "result %d errors %r, fresh execution gives %r" % (k, g["errors"], w["errors"])))
     return bad
+
+
+def spelling_class(case):
+    """'' for the plain spelling; otherwise how the root selection is written"""
+    root = root_of(case)
+    if all("leaf" in n for n in root):
+        return "" if len(root) <= 1 or case["refusal"] == "multi-field" else ":duplicates-or-aliases"
+    return ":through-fragments"
 
 
 def has_async_field(sel):
@@ -483,15 +614,27 @@ def event_tree(case, ev):
     return [{"k": "root", "o": "ret", "c": {"t": "obj", "fs": nodes(case["sel"] or [{"k": "zz", "f": "a", "sel": []}], ("root",))}}]
 
 
+def model_root(root):
+    out = []
+    for n in root:
+        if "leaf" in n:
+            out.append({"k": LEAF_KEY[n["leaf"]]})
+        else:
+            out.append({"spread": model_root(n["frag"])})
+    return out
+
+
 def model_request(case):
     r = case["refusal"]
     return {
         "op": "subscribe",
         "operation": {"query-op": "query", "mutation-op": "mutation"}.get(r, "subscription"),
-        "rootFields": 2 if r == "multi-field" else 1,
+        "root": model_root(root_of(case)),
         "fieldDefined": r != "unknown-field",
         "hasSubResolver": r != "no-sub-resolver",
         "streamRuntime": r not in ("blocking-runtime", "threadpool-runtime"),
+        "opsel": "error" if r in ("opsel-unknown", "opsel-ambiguous") else "ok",
+        "vars": "error" if r == "vars" else "ok",
         "events": [event_tree(case, ev) for ev in case["events"]],
     }
 
@@ -628,10 +771,39 @@ def exhaustive_cases():
         out.append({"kind": "stream", "refusal": None, "async_sub": bool(sum(pattern) % 2), "source": "iter" if pattern[0] % 2 else "agen",
                     "threads": False, "sel": copy.deepcopy(sel), "events": evs, "delays": [pattern[0], pattern[1], pattern[2], 0]})
     for r in REFUSALS:
+        if r in ("multi-expanded", "zero-fields"):      # need a root spelling: added below
+            continue
         for a in (False, True):
             for s in ("iter", "agen"):
                 out.append({"kind": "refusal", "refusal": r, "async_sub": a, "source": s, "threads": False, "sel": copy.deepcopy(sel),
                             "events": [{"id": 0, "val": 1, "fail": [], "null": [], "len": {}}], "delays": [0, 0]})
+    ev0 = {"id": 0, "val": 1, "fail": [], "null": [], "len": {}}
+    ev1 = {"id": 1, "val": 2, "fail": ["root/x"], "null": [], "len": {}}
+
+    def fr(style, *nodes):
+        return {"frag": list(nodes), "style": style}
+
+    def lf(x):
+        return {"leaf": x}
+    multi = [[fr("spread", lf("R"), lf("O2"))], [fr("inline", lf("R"), lf("O"))], [fr("inline-untyped", lf("O2"), lf("R"))],
+             [fr("spread", lf("R"), fr("spread", lf("O2")))], [fr("spread", fr("inline", lf("R")), fr("spread", lf("O")))],
+             [lf("R"), fr("spread", lf("O2"))], [lf("R"), lf("O2")], [lf("R"), lf("R"), lf("O")],
+             [fr("inline", lf("R"), lf("Os"), lf("O2"))]]
+    single = [[lf("R"), lf("R")], [fr("spread", lf("R"))], [fr("inline", lf("R"))], [fr("inline-untyped", lf("R"), lf("R"))],
+              [fr("spread", fr("spread", lf("R")))], [lf("Ra"), lf("Rb")], [fr("spread", lf("Ra")), lf("Rb")], [lf("R"), lf("Os")],
+              [fr("spread", lf("Os"), lf("R")), lf("R")]]
+    zero = [[lf("Rs")], [fr("spread", lf("Rs"), lf("Os"))]]
+    for a in (False, True):
+        for root in multi:
+            out.append({"kind": "refusal", "refusal": "multi-expanded", "async_sub": a, "source": "iter", "threads": False,
+                        "sel": copy.deepcopy(sel), "events": [copy.deepcopy(ev0)], "delays": [0, 0], "root": copy.deepcopy(root)})
+        for root in zero:
+            out.append({"kind": "refusal", "refusal": "zero-fields", "async_sub": a, "source": "agen", "threads": False,
+                        "sel": copy.deepcopy(sel), "events": [copy.deepcopy(ev0)], "delays": [0, 0], "root": copy.deepcopy(root)})
+        for root in single:
+            out.append({"kind": "stream", "refusal": None, "async_sub": a, "source": "iter" if a else "agen", "threads": False,
+                        "sel": copy.deepcopy(sel), "events": [copy.deepcopy(ev0), copy.deepcopy(ev1), copy.deepcopy(ev0)],
+                        "delays": [0, 1, 0, 0], "root": copy.deepcopy(root)})
     return out
 
 
